@@ -7,6 +7,7 @@ import Driver.PM
 import Driver.C09
 import Driver.C16
 import Driver.C17
+import Driver.C04
 
 def main (args : List String) : IO UInt32 := do
   match args with
@@ -19,4 +20,5 @@ def main (args : List String) : IO UInt32 := do
   | "C09" :: rest => DriverC09.main rest; return 0
   | "C16" :: rest => DriverC16.main rest; return 0
   | "C17" :: rest => DriverC17.main rest; return 0
+  | "C04" :: rest => DriverC04.main rest; return 0
   | _ => IO.eprintln "usage: gvdriver <Cxx> [mode] < history"; return 2
